@@ -9,8 +9,10 @@ GRID = np.arange(-2.0, 2.01, 0.25)
 
 
 class Gen:
-    def __init__(self, rng, real_vars=0.15, mode="free", nonneg=False, allow=None, absent_reduce=0.35):
+    def __init__(self, rng, real_vars=0.15, mode="free", nonneg=False, allow=None, absent_reduce=0.35, pool=None, fresh_names=True):
         self.rng = rng
+        self.pool = dict(pool) if pool is not None else dict(POOL)
+        self.fresh_names = fresh_names      # False: "fresh" names are drawn from the pool too (adversarial collisions)
         self.real_vars = real_vars          # probability weight of a free real variable leaf
         self.mode = mode                    # "free" | "arith" | "tropical" | "nonneg"
         self.nonneg = nonneg or mode == "nonneg"
@@ -28,7 +30,7 @@ class Gen:
         return xs[int(self.rng.choice(len(xs), p=p))]
 
     def names(self, k=None, size=None):
-        pool = [n for n in POOL if size is None or POOL[n] == size]
+        pool = [n for n in self.pool if size is None or self.pool[n] == size]
         if k is None:
             k = int(self.rng.integers(0, 4))
         k = min(k, len(pool))
@@ -36,6 +38,8 @@ class Gen:
 
     def fresh(self, prefix="z"):
         self.counter += 1
+        if not self.fresh_names and prefix not in ("x", "d", "r", "u") and self.rng.random() < 0.8:
+            return self.choice(list(self.pool))
         return "%s%d" % (prefix, self.counter)
 
     def data(self, shape):
@@ -47,12 +51,12 @@ class Gen:
     def tensor(self, shape=(), names=None):
         if names is None:
             names = self.names()
-        return ("ten", self.data(tuple(POOL[n] for n in names) + tuple(shape)), tuple(names), "real")
+        return ("ten", self.data(tuple(self.pool[n] for n in names) + tuple(shape)), tuple(names), "real")
 
     def int_tensor(self, size, names=None):
         if names is None:
             names = self.names(int(self.rng.integers(0, 3)))
-        full = tuple(POOL[n] for n in names)
+        full = tuple(self.pool[n] for n in names)
         return ("ten", self.rng.integers(0, size, size=full).astype(np.int64), tuple(names), int(size))
 
     def ops_bin(self):
@@ -87,16 +91,16 @@ class Gen:
             if c < 0.2:
                 return ("num", int(self.rng.integers(size)), int(size))
             if c < 0.4:
-                cands = [n for n in POOL if POOL[n] == size] + [self.fresh("v")]
+                cands = [n for n in self.pool if self.pool[n] == size] + [self.fresh("v")]
                 return ("var", self.choice(cands), (size, ()))
             if c < 0.55:
                 start = int(self.rng.integers(0, size))
                 stop = int(self.rng.integers(start + 1, size + 1))
-                return ("slice", self.choice([self.fresh("s")] + list(POOL)), start, stop, int(self.rng.integers(1, 3)), int(size))
+                return ("slice", self.choice([self.fresh("s")] + list(self.pool)), start, stop, int(self.rng.integers(1, 3)), int(size))
             t = self.int_tensor(size, self.names(int(self.rng.integers(0, 3))))
             if depth > 0 and c > 0.8 and t[2]:
                 k = t[2][0]
-                return ("sub", t, ((k, self.int_tensor(POOL[k], self.names(int(self.rng.integers(0, 2))))),))
+                return ("sub", t, ((k, self.int_tensor(self.pool[k], self.names(int(self.rng.integers(0, 2))))),))
             return t
         r = self.rng.random()
         if depth <= 0 or r < 0.3:
@@ -104,7 +108,7 @@ class Gen:
             if c < 0.3:
                 return ("num", int(self.rng.integers(size)), int(size))
             if c < 0.55:
-                cands = [n for n in POOL if POOL[n] == size]
+                cands = [n for n in self.pool if self.pool[n] == size]
                 if cands:
                     return ("var", self.choice(cands), (size, ()))
                 return ("var", self.fresh("v"), (size, ()))
@@ -115,7 +119,7 @@ class Gen:
             start = int(self.rng.integers(0, size))
             stop = int(self.rng.integers(start + 1, size + 1))
             step = int(self.rng.integers(1, 3))
-            name = self.choice([self.fresh("s")] + list(POOL))
+            name = self.choice([self.fresh("s")] + list(self.pool))
             return ("slice", name, start, stop, step, int(size))
         if r < 0.75:
             # index tensor with a substitution applied
@@ -124,7 +128,7 @@ class Gen:
         if r < 0.9:
             # stack of integer expressions
             n = int(self.rng.integers(1, 4))
-            name = self.choice(["i", "k", "j", self.fresh("s")])
+            name = self.choice([n for n in ("i", "k", "j") if n in self.pool] + [self.fresh("s")])
             return ("stack", name, tuple(self.integer(depth - 1, size) for _ in range(n)))
         t = self.int_tensor(size, self.names(int(self.rng.integers(1, 3))))
         return t
@@ -136,7 +140,7 @@ class Gen:
         except (IllTyped, Unsupported):
             return e
         keys = [k for k in inputs]
-        extra = [n for n in POOL if n not in inputs]
+        extra = [n for n in self.pool if n not in inputs]
         nkeys = int(self.rng.integers(1, 3))
         chosen = []
         for _ in range(nkeys):
@@ -147,7 +151,7 @@ class Gen:
             else:
                 continue
             if k not in [c[0] for c in chosen]:
-                chosen.append((k, inputs.get(k, (POOL.get(k, 2), ()))))
+                chosen.append((k, inputs.get(k, (self.pool.get(k, 2), ()))))
         subs = []
         for k, dom in chosen:
             if dom[0] == "real":
@@ -167,7 +171,7 @@ class Gen:
             if c < 0.2:
                 v = ("num", int(self.rng.integers(size)), int(size))
             elif c < 0.45:
-                cands = [n for n in POOL if POOL[n] == size and n != k] + [self.fresh("z")]
+                cands = [n for n in self.pool if self.pool[n] == size and n != k] + [self.fresh("z")]
                 v = ("var", self.choice(cands), (size, ()))
             else:
                 v = self.integer(depth, size)
@@ -248,7 +252,7 @@ class Gen:
         except (IllTyped, Unsupported):
             return None
         present = [n for n, d in inputs.items() if d[0] != "real" and d[1] == ()]
-        absent = [n for n in POOL if n not in inputs]
+        absent = [n for n in self.pool if n not in inputs]
         vs = []
         if present:
             k = int(self.rng.integers(1, min(3, len(present)) + 1))
@@ -258,20 +262,20 @@ class Gen:
         if not vs:
             return None
         doms = dict(inputs)
-        return ("red", self.choice(self.ops_red()), e, tuple(sorted((n, doms.get(n, (POOL.get(n, 2), ()))) for n in vs)))
+        return ("red", self.choice(self.ops_red()), e, tuple(sorted((n, doms.get(n, (self.pool.get(n, 2), ()))) for n in vs)))
 
     def k_sub(self, depth, shape):
         return self.subs_of(self.real(depth - 1, shape), depth - 1)
 
     def k_stack(self, depth, shape):
         n = int(self.rng.integers(1, 4))
-        name = self.choice(["i", "j", "k", "a", self.fresh("s")])
+        name = self.choice([n for n in ("i", "j", "k", "a") if n in self.pool] + [self.fresh("s")])
         return ("stack", name, tuple(self.real(depth - 1, shape) for _ in range(n)))
 
     def k_cat(self, depth, shape):
         n = int(self.rng.integers(1, 4))
-        name = self.choice(["i", "j", "k", "l", "n"])
-        part_name = name if self.rng.random() < 0.7 else self.choice(["i", "j", "k", "l"])
+        name = self.choice([n for n in ("i", "j", "k", "l", "n") if n in self.pool])
+        part_name = name if self.rng.random() < 0.7 else self.choice([n for n in ("i", "j", "k", "l") if n in self.pool])
         parts = []
         for _ in range(n):
             p = self.real(depth - 1, shape)
@@ -288,7 +292,7 @@ class Gen:
     def k_lam(self, depth, shape):
         if not shape:
             return None
-        cands = [n for n in POOL if POOL[n] == shape[0]]
+        cands = [n for n in self.pool if self.pool[n] == shape[0]]
         name = self.choice(cands + [self.fresh("b")]) if cands else self.fresh("b")
         e = self.real(depth - 1, shape[1:])
         if self.rng.random() < 0.6:
@@ -412,13 +416,13 @@ class Gen:
         start = int(self.rng.integers(0, size))
         stop = int(self.rng.integers(start + 1, size + 1))
         step = int(self.rng.integers(1, 3))
-        name = self.choice([k, self.fresh("s"), self.choice(list(POOL))])
+        name = self.choice([k, self.fresh("s"), self.choice(list(self.pool))])
         return ("sub", e, ((k, ("slice", name, start, stop, step, int(size))),))
 
     def k_indep(self, depth, shape):
         if shape != () or self.mode in ("nonneg", "tropical"):
             return None
-        bv = self.choice(["i", "j", "k"])
+        bv = self.choice([n for n in ("i", "j", "k") if n in self.pool])
         dv = self.fresh("d")
         rv = self.fresh("r")
         body = ("bin", self.choice(["mul", "add", "sub"]), (), self.tensor((), [bv] + self.names(1)), ("var", dv, ("real", ())))
@@ -427,5 +431,5 @@ class Gen:
         e = ("indep", body, rv, bv, dv)
         c = self.rng.random()
         if c < 0.6 or self.ground:
-            return ("sub", e, ((rv, ("ten", self.data((POOL[bv],)), (), "real")),))
+            return ("sub", e, ((rv, ("ten", self.data((self.pool[bv],)), (), "real")),))
         return e
